@@ -48,14 +48,23 @@ type c05Case struct {
 func genC05Input(seed int64, idx int) *scenario {
 	rnd := vf.Rand(seed, "c05-input", idx)
 	sc := &scenario{Idx: idx, NSrcP: 2 + rnd.Intn(2), Targets: 1, PackCnt: []int{1, 3}[rnd.Intn(2)], SharedDS: true}
-	// every source pchannel hosts exactly one stream
 	nColl := 1 + rnd.Intn(2)
 	perm := rnd.Perm(sc.NSrcP)
-	if nColl == 1 {
+	variant := idx % 3
+	switch {
+	case variant == 1:
+		// two collections SHARE a source pchannel (two streams of one topic with their own checkpoints)
+		sc.Colls = []collDef{{DB: "default", Name: "c05_a", PChannels: perm[:2]}, {DB: "default", Name: "c05_b", PChannels: perm[:1+rnd.Intn(2)]}}
+	case nColl == 1:
+		// every source pchannel hosts exactly one stream
 		sc.Colls = []collDef{{DB: "default", Name: "c05_a", PChannels: perm[:1+rnd.Intn(sc.NSrcP)]}}
-	} else {
+	default:
 		cut := 1 + rnd.Intn(sc.NSrcP-1)
 		sc.Colls = []collDef{{DB: "default", Name: "c05_a", PChannels: perm[:cut]}, {DB: "default", Name: "c05_b", PChannels: perm[cut:]}}
+	}
+	if variant == 2 {
+		// a batcher that holds packs for a while, and packs larger than its MaxMsgSize (1 KB): the oversize flush path
+		sc.PackCnt, sc.PackMs, sc.PackKB = 6, 250, 1
 	}
 	sc.Tasks = []taskDef{{Target: 0, Collections: "*"}}
 	sc.Steps = append(sc.Steps, step{Op: "create_task", Task: 0})
@@ -74,6 +83,10 @@ func genC05Input(seed int64, idx int) *scenario {
 					sc.Steps = append(sc.Steps, step{Op: "delete", Coll: ci, Shard: si})
 				case q < 9: // a burst inside one tick interval
 					sc.Steps = append(sc.Steps, step{Op: "insert", Coll: ci, Shard: si, Rows: 1}, step{Op: "insert", Coll: ci, Shard: si, Rows: 2}, step{Op: "delete", Coll: ci, Shard: si})
+				}
+				if variant == 2 && r%2 == 1 && si == 0 {
+					// small packs first (they stay buffered), then one oversized pack of the same stream
+					sc.Steps = append(sc.Steps, step{Op: "insert", Coll: ci, Shard: si, Rows: 1}, step{Op: "tick"}, step{Op: "insert", Coll: ci, Shard: si, Rows: 1}, step{Op: "tick"}, step{Op: "insert", Coll: ci, Shard: si, Rows: 120})
 				}
 			}
 		}
@@ -186,7 +199,10 @@ func runC05Case(c *c05Case, name string) *c05Result {
 		}
 		return sysboot.StoreDecision{}
 	})
-	copts := childOpts{PackCount: sc.PackCnt, PackTimer: 30, SrcChannels: sc.NSrcP}
+	copts := childOpts{PackCount: sc.PackCnt, PackTimer: 30, SrcChannels: sc.NSrcP, PackMaxKB: sc.PackKB}
+	if sc.PackMs > 0 {
+		copts.PackTimer = sc.PackMs
+	}
 	if err := s.startChild(copts); err != nil {
 		res.inconclusive = "child: " + err.Error()
 		return res
@@ -622,19 +638,19 @@ func c05Oracle(rs *runState, res *c05Result, missing []int64) {
 
 func runC05(tier string) *vf.Run {
 	run := vf.NewRun("C05", tier, "fault_enumeration")
-	run.Rule = "input = 1-2 collections x 1-3 shards (one stream per source pchannel, all downstream shards on ONE downstream channel), 6-11 rounds of inserts/deletes (bursts inside one tick interval) + ticks, batcher count 1 or 3; a fault-free run of the input counts the acks K and checkpoint Puts P; then the same input is re-run with one fault at an enumerated step: SIGKILL with the k-th ReplicateMessage applied but its reply held, SIGKILL just before / after the n-th checkpoint Put, k-th ReplicateMessage rejected, n-th checkpoint Put failing, pause+resume, and a skewed variant (one stream read slowly through a consumer gate, then killed). Quick: a fixed subset of the steps of one input; thorough: every k and n of several inputs. Non-trivial = the fault was delivered at the intended step and the run ended with all rows acked or a verdict; distinct by (input, fault kind, step)."
+	run.Rule = "input = 1-2 collections x 1-3 shards (variant 0: one stream per source pchannel; variant 1: two collections sharing a source pchannel; variant 2: batcher count 6 / 250 ms / MaxMsgSize 1 KB with small packs followed by an oversized pack of the same stream; all downstream shards on ONE downstream channel), 6-11 rounds of inserts/deletes (bursts inside one tick interval) + ticks, batcher count 1 or 3; a fault-free run of the input counts the acks K and checkpoint Puts P; then the same input is re-run with one fault at an enumerated step: SIGKILL with the k-th ReplicateMessage applied but its reply held, SIGKILL just before / after the n-th checkpoint Put, k-th ReplicateMessage rejected, n-th checkpoint Put failing, pause+resume, and a skewed variant (one stream read slowly through a consumer gate, then killed). Quick: a fixed subset of the steps of three inputs (one per variant); thorough: every k and n of nine inputs. Non-trivial = the fault was delivered at the intended step and the run ended with all rows acked or a verdict; distinct by (input, fault kind, step)."
 	run.Assumptions = []string{
 		"the fake downstream acks a ReplicateMessage when it ACCEPTS it (logged before replying); the child announces every store call to the supervisor BEFORE performing it, so 'checkpoint after ack' is judged on one clock without observation lag",
 		"message ids are unique over all topics (memq allocates them from one counter), so a checkpoint position identifies its stream's messages",
 		"liveness is restated as bounded progress: after the fault the supervisor restarts a dead child, resumes paused tasks and keeps ticking; a row counts as LOST only when a later row of the same stream was acked in the last incarnation; otherwise the case is inconclusive",
 	}
-	nInputs := run.Pick(1, 6)
+	nInputs := run.Pick(3, 9)
 	var cases []*c05Case
 	// baseline runs first (sequentially cheap): they size the enumeration
 	type base struct{ acks, puts int }
 	bases := make([]base, nInputs)
 	var bmu sync.Mutex
-	parallel(nInputs, 6, func(i int) {
+	parallel(nInputs, 9, func(i int) {
 		sc := genC05Input(run.Seed, i)
 		r := runC05Case(&c05Case{Input: i, Sc: sc, Fault: c05Fault{Kind: "none"}}, fmt.Sprintf("c05-base-%d", i))
 		run.Eval(1)
@@ -663,8 +679,8 @@ func runC05(tier string) *vf.Run {
 		stepK := 1
 		stepP := 1
 		if !run.Thorough() {
-			stepK = max(1, K/5)
-			stepP = max(1, P/4)
+			stepK = max(1, K/3)
+			stepP = max(1, P/3)
 		}
 		for k := 2; k <= K; k += stepK {
 			cases = append(cases, &c05Case{Input: i, Sc: sc, Fault: c05Fault{Kind: "kill-at-ack", N: k}})
@@ -673,14 +689,18 @@ func runC05(tier string) *vf.Run {
 			cases = append(cases, &c05Case{Input: i, Sc: sc, Fault: c05Fault{Kind: "kill-before-put", N: n}})
 			cases = append(cases, &c05Case{Input: i, Sc: sc, Fault: c05Fault{Kind: "kill-after-put", N: n}})
 		}
-		for _, k := range []int{2, K / 2, K - 1} {
+		nacks, pfails, skews := []int{2, K / 2, K - 1}, []int{1, P / 2, P - 1}, []int{K / 2, K - 2}
+		if !run.Thorough() {
+			nacks, pfails, skews = []int{K / 2}, []int{[]int{1, P / 2, P - 1}[i%3]}, []int{K / 2}
+		}
+		for _, k := range nacks {
 			cases = append(cases, &c05Case{Input: i, Sc: sc, Fault: c05Fault{Kind: "nack", N: max(2, k)}})
 		}
-		for _, n := range []int{1, P / 2, P - 1} {
+		for _, n := range pfails {
 			cases = append(cases, &c05Case{Input: i, Sc: sc, Fault: c05Fault{Kind: "put-fail", N: max(1, n)}})
 		}
 		cases = append(cases, &c05Case{Input: i, Sc: sc, Fault: c05Fault{Kind: "pause-resume", Round: 3}})
-		for _, k := range []int{K / 2, K - 2} {
+		for _, k := range skews {
 			cases = append(cases, &c05Case{Input: i, Sc: sc, Fault: c05Fault{Kind: "skew-kill", N: max(3, k), Round: 4}})
 		}
 	}
@@ -693,7 +713,7 @@ func runC05(tier string) *vf.Run {
 		}
 		cases = sel
 	}
-	parallel(len(cases), 8, func(ci int) {
+	parallel(len(cases), 10, func(ci int) {
 		c := cases[ci]
 		r := runC05Case(c, fmt.Sprintf("c05-%d", ci))
 		run.Eval(1)
